@@ -64,6 +64,7 @@ type Unit struct {
 	typesSeen      map[string]types.Type
 	uncontracted   map[string]*ssa.Function // functions of the module called here that have no contract
 	roMaps         map[string]bool // constants naming read-only map globals
+	snapD          map[string]bool // designators named in at_return() clauses of this unit
 	keepProved     bool
 	havocMemo      map[string]Term
 	obs            map[string]*Oblig
@@ -456,8 +457,8 @@ func (u *Unit) Prove(st *State, name, class string, tags []string, pos token.Pos
 	o.Paths++
 	if dbg := os.Getenv("GOVC_GOAL"); dbg != "" && strings.Contains(name, dbg) {
 		g := goal.String()
-		if len(g) > 600 {
-			g = g[:600]
+		if len(g) > 20000 {
+			g = g[:20000]
 		}
 		fmt.Fprintf(os.Stderr, "GOAL %s: %s\n", name, g)
 	}
